@@ -1796,4 +1796,29 @@ Proof.
   - apply Hb in K. discriminate.
 Qed.
 
+(* the integer queries depend on the end points only through (is_infinity, is_integer, floor, ceiling) *)
+Lemma itv_contains_int_epi X : itv_contains_int X = ei_contains_int (epi_itv X).
+Proof.
+  destruct X as [a b ao bo p]. unfold itv_contains_int, ei_contains_int, epi_itv; cbn [ia ib ia_open ib_open ipt].
+  destruct a as [|qa|], b as [|qb|]; reflexivity.
+Qed.
+Lemma itv_count_int_epi X : itv_count_int X = ei_count_int (epi_itv X).
+Proof.
+  destruct X as [a b ao bo p]. unfold itv_count_int, ei_count_int, epi_itv; cbn [ia ib ia_open ib_open ipt].
+  destruct a as [|qa|], b as [|qb|]; reflexivity.
+Qed.
+Lemma xs_int_queries_epi s :
+  xs_contains_int s = es_contains_int (map epi_itv s) /\
+  xs_count_int s = es_count_int (map epi_itv s) /\
+  xs_is_point_int s = es_is_point_int (map epi_itv s).
+Proof.
+  split; [|split].
+  - induction s as [|X t IH]; [reflexivity|]. cbn [map xs_contains_int es_contains_int].
+    rewrite itv_contains_int_epi, IH. reflexivity.
+  - unfold xs_count_int, es_count_int. generalize 0. induction s as [|X t IH]; intro c; [reflexivity|].
+    cbn [map xs_count_int_from es_count_int_from]. rewrite itv_count_int_epi, IH. reflexivity.
+  - unfold xs_is_point_int, es_is_point_int. generalize 0. induction s as [|X t IH]; intro c; [reflexivity|].
+    cbn [map xs_is_point_int_from es_is_point_int_from]. rewrite itv_count_int_epi, IH. reflexivity.
+Qed.
+
 End IntOps.
